@@ -278,6 +278,17 @@ Definition create_rows (is_row by_struct : bool) (own names : list name) (data :
         else Err "ValueError"
     end.
 
+(* createDataFrame(tuples, StructType) whose fields carry non-default attributes: nullable=False
+   ([strict] j = true), metadata, IntegerType.  The verifier rejects a None in a non-nullable field;
+   nothing else in the operations modelled here looks at these attributes (fields of one frame are
+   told apart by their id, see [field_eqb]) *)
+Definition create_strict (names : list name) (strict : list bool) (data : list (list val)) : res pre :=
+  if existsb (fun d => existsb (fun sv => fst sv && match snd sv with VNone => true | _ => false end)
+                               (combine strict d)) data
+     && forallb (fun d => Nat.eqb (length d) (length names)) data
+  then Err "ValueError"
+  else create true names data.
+
 (* range(start, end, step) *)
 Definition py_range (start stop step : Z) : list Z :=
   if step >? 0 then
@@ -287,13 +298,11 @@ Definition py_range (start stop step : Z) : list Z :=
   else [].
 Definition id_name : name := s2n "id".
 Definition range_frame (start stop step : Z) : res pre :=
-  if step =? 0 then Err "ValueError"
+  if step =? 0 then Err "ValueError"          (* Python's range() *)
   else
-    let rs := map (fun i => ([id_name], [VInt i])) (py_range start stop step) in
-    match rs with
-    | [] => Err "ValueError"           (* infer_schema_from_rdd on an empty dataset *)
-    | r :: _ => Ok (struct_of (map PNew (fst r)) rs true true)     (* _infer_schema(Row): names from row.__fields__ *)
-    end.
+    (* rows: create_row(["id"], [i]); schema: the explicit StructType([StructField("id", LongType(), True)]),
+       so an empty range is an empty frame with the column id *)
+    Ok (struct_of [PNew id_name] (map (fun i => ([id_name], [VInt i])) (py_range start stop step)) true true).
 
 (* ---------- select ---------- *)
 Inductive scol := SStar | SExpr (e : expr).
@@ -535,11 +544,11 @@ Definition stat_names_schema (pvals : option (list val)) (aggs : list agg) : lis
   | Some vs => if Nat.eqb (length aggs) 1 then map pv_str vs
                else flat_map (fun pv => map (fun a => pivot_name_schema (pv_str pv) (agg_str a)) aggs) vs
   end.
-(* names as get_pivoted_stats / str(stat) build them for every ROW (alias(pivot_value) must be a str) *)
+(* names as get_pivoted_stats / str(stat) build them for every ROW *)
 Definition stat_name_row (single : bool) (cell : option val) (a : agg) : res name :=
   match cell with
   | None => Ok (agg_str a)
-  | Some pv => if single then match pv with VStr s => Ok s | _ => Err "TypeError" end
+  | Some pv => if single then Ok (pv_str pv)                  (* stats[0].alias(str(pivot_value)) *)
                else Ok (pivot_name_row (pv_str pv) (agg_str a))
   end.
 Definition pivot_cells (pvals : option (list val)) : list (option val) :=
@@ -675,7 +684,8 @@ Inductive instr :=
 | IDistinct (src : nat)
 | ISample (src : nat) (wr : bool) (a m : Z)
 | IRepartition (src : nat) (cols : list expr)
-| ICreateRows (is_row by_struct : bool) (own names : list name) (data : list (list val)).
+| ICreateRows (is_row by_struct : bool) (own names : list name) (data : list (list val))
+| ICreateStrict (names : list name) (strict : list bool) (data : list (list val)).
 
 Definition get (env : list frame) (i : nat) : res frame :=
   match nth_error env i with Some f => Ok f | None => Err "BadCase" end.
@@ -703,6 +713,7 @@ Definition step (env : list frame) (i : instr) : res pre :=
   | ISample s wr a m => do f <- get env s; do _ <- need_val f; sample_with (script_mult wr a m) f
   | IRepartition s cols => do f <- get env s; repartition f cols
   | ICreateRows r m own names data => create_rows r m own names data
+  | ICreateStrict names strict data => create_strict names strict data
   end.
 
 (* runs the program until the first step that raises; returns the frames built so far *)
